@@ -65,3 +65,20 @@ PROPS["C15"] = P(
     bounds="every byte string of length 0..=9 per subtag constructor (all 256 values per byte)",
     outside="subtags longer than 9 bytes (the only length-dependent code is `len > N` in TinyAsciiStr::from_bytes_inner)",
 )
+
+PARSER_STUBS = ["std::vec::Vec::push", "<[unic_langid_impl::subtags::Variant]>::sort_unstable", "std::vec::Vec::into_boxed_slice"]
+# loops of the repo's own parser and of std iterator adaptors: one iteration per token (+1 to leave)
+def tok_uw(k):
+    return {r"parse_language_identifier_from_iter": k + 2, r"array::|from_fn|try_from_fn|iter_next_unchecked|drain_array": k + 2,
+            r"stubs::(sort_unstable|push|to_vec)": 6, r"dedup": 6, r"h::": 6}
+
+PROPS["C02"] = P(
+    jobs=[
+        J("c02_tokens_1", unwind=6, uw=tok_uw(1), stubs=PARSER_STUBS, desc="LanguageIdentifier::try_from_iter(.., false) on 1 x T9 vs reference recogniser/canonicaliser"),
+        J("c02_tokens_2", unwind=6, uw=tok_uw(2), stubs=PARSER_STUBS, desc="2 x T9", weight=2),
+        J("c02_tokens_3", unwind=6, uw=tok_uw(3), stubs=PARSER_STUBS, desc="3 x T9", weight=3),
+        J("c02_tokens_4", tier="t", unwind=6, uw=tok_uw(4), stubs=PARSER_STUBS, desc="4 x T9", weight=4, mem_gb=12),
+    ],
+    bounds="token level: 1..3 (quick) / 1..4 (thorough) subtags, each " + T9,
+    outside="identifiers with more than 4 subtags; subtags longer than 9 bytes; the push/sort/into_boxed_slice models of std (DESIGN 2.3)",
+)
